@@ -24,6 +24,7 @@ ObsInit == [types |-> <<>>,        \* layer types bottom -> top
             crun |-> EmptyMap,     \* thr -> callable was running when its pending cancel() was issued
             lac |-> EmptyMap,      \* thr -> taps live when its pending cancel() was issued
             arrived |-> {},        \* <<f, i>>: some cancel() has arrived at the future tap i returned for f
+            arrby |-> EmptyMap,    \* thr -> the <<f, i>> its pending cancel() call has reached so far (forwarding is synchronous)
                                    \* (a second, concurrent cancel() returns True without forwarding again)
             ready |-> EmptyMap,    \* <<f, i>> -> time at which tap i's submit returned that future to the layer above
             lacq |-> EmptyMap,     \* thr -> taps live AND handed over at an earlier instant than its pending cancel()
@@ -52,9 +53,10 @@ ObsNext(st, e) ==
                      \*  is complete)
                      !.lacq = Put(@, e.thr, {p[2] : p \in {q \in st.live : q[1] = e.f /\ Has(st.ready, q)
                                                                         /\ st.ready[q] < e.t}}),
-                     !.arrived = @]
+                     !.arrby = Put(@, e.thr, {})]
     [] e.ev = "CancelArrived" /\ TapIdx(e.s) > 0 ->
-          [st EXCEPT !.arrived = @ \cup {<<e.f, TapIdx(e.s)>>}]
+          [st EXCEPT !.arrived = @ \cup {<<e.f, TapIdx(e.s)>>},
+                     !.arrby = Put(@, e.thr, Get(@, e.thr, {}) \cup {<<e.f, TapIdx(e.s)>>})]
     [] e.ev = "CancelArrivedRet" /\ TapIdx(e.s) > 1 /\ IsRetryTap(st, TapIdx(e.s) - 1) ->
           [st EXCEPT !.rstop = @ \cup {<<e.f, TapIdx(e.s) - 1>>}]
     [] e.ev = "CancelRet" ->
@@ -80,12 +82,13 @@ Clauses(st, e) ==
         (e.ev = "CancelRet" /\ e.a = 1 /\ Has(st.lac, e.thr)) =>
             \A i \in st.lac[e.thr] : <<e.f, i>> \in st.arrived \/ <<e.f, i>> \in st.finished>>,
      <<"C06_ForwardedEvenIfRefused",
-        \* a cancel() that comes back False was forwarded all the same - unless the callable was running when it was
+        \* a cancel() that comes back False was forwarded all the same - THIS call, however many were refused before it -
+        \* unless the callable was running when it was
         \* issued (then the refusal may come from any layer on the way down).  Not judged over a synchronous base: there a
         \* worker thread runs the callable - for as long as it takes - while holding library locks, so another layer's
         \* hand-over can still be blocked at a later instant
         (e.ev = "CancelRet" /\ e.a = 0 /\ ~st.sync /\ Has(st.lacq, e.thr) /\ ~Get(st.crun, e.thr, FALSE) /\ e.f \notin st.running) =>
-            \A i \in st.lacq[e.thr] : <<e.f, i>> \in st.arrived \/ <<e.f, i>> \in st.finished
+            \A i \in st.lacq[e.thr] : <<e.f, i>> \in Get(st.arrby, e.thr, {}) \/ <<e.f, i>> \in st.finished
                                      \/ <<e.f, i>> \notin st.live>>,
      <<"C02_CancelNeverRaises",
         e.ev = "CancelRaise" => FALSE>> >>
